@@ -17,12 +17,14 @@ import (
 )
 
 type c18ReLoop struct {
-	NSucc  int  `json:"nsucc"`
-	Failed bool `json:"failed"`         // a ping of this loop failed (then Close follows)
+	NSucc  int  `json:"nsucc"`          // successful pings while its session was up
+	Failed bool `json:"failed"`         // a ping of this loop failed
+	Closed bool `json:"closed"`         // ... and the loop answered it with Close
 	Late   int  `json:"late,omitempty"` // pings after its session was over (+ grace)
-	SrvN   int  `json:"srvn"`           // keep-alives the server read on this session's connection
-	Err    int  `json:"errs"`           // ErrorHandler calls while this session was the current one
-	Disc   int  `json:"discs"`          // Disconnected events while this session was the current one
+	LateOk int  `json:"late_ok,omitempty"`
+	SrvN   int  `json:"srvn"`  // keep-alives the server read on this session's connection
+	Err    int  `json:"errs"`  // ErrorHandler calls while this session was the current one
+	Disc   int  `json:"discs"` // Disconnected events while this session was the current one
 }
 
 type c18ReObs struct {
@@ -33,6 +35,8 @@ type c18ReObs struct {
 	LastSrvN   int         `json:"last_srvn"`             // keep-alive bytes on the last session's connection
 	LastUpUs   int64       `json:"last_up_us"`            // how long the last session was up
 	OpenFailed []int       `json:"open_failed,omitempty"` // server connections of failed attempts the client never closed
+	GateMissed bool        `json:"gate_missed,omitempty"` // late variants: the loop could not be stopped where intended
+	LateClose  bool        `json:"late_close,omitempty"`  // latefail: the loop answered its failed late ping with Close
 }
 
 func kaSessionTail(clear []byte) []byte {
@@ -53,7 +57,7 @@ func kaSessionTail(clear []byte) []byte {
 func runKeepaliveRe(in *c18In, attempt int) (Sx, *c18Obs) {
 	iv := time.Duration(in.IvUs) * time.Microsecond
 	setupErr := func(msg string) (Sx, *c18Obs) {
-		return L(L(Z(-2), SBytes(msg))), &c18Obs{Attempts: attempt, SetupErr: msg, CloseUs: -1, ReturnUs: -1, Re: &c18ReObs{}}
+		return L(L(L(Z(-2), SBytes(msg))), L()), &c18Obs{Attempts: attempt, SetupErr: msg, CloseUs: -1, ReturnUs: -1, Re: &c18ReObs{}}
 	}
 	groups := [][]sItem{
 		{hdrItem(), {T: "features", Mechs: []string{"PLAIN"}}},
@@ -135,6 +139,14 @@ func runKeepaliveRe(in *c18In, attempt int) (Sx, *c18Obs) {
 		}
 		return nil
 	})
+	connectHookCalls := 0
+	client.PostConnectHook = func() error {
+		connectHookCalls++
+		if in.Variant == "connecthook" && connectHookCalls == 1 {
+			return errors.New("application: fetching the roster failed")
+		}
+		return nil
+	}
 	hookCalls := 0
 	client.PostResumeHook = func() error {
 		hookCalls++
@@ -144,12 +156,25 @@ func runKeepaliveRe(in *c18In, attempt int) (Sx, *c18Obs) {
 		return nil
 	}
 	rec := &kaRec{}
-	tr := &kaReal{Transport: xmpp.VerifTransport(client), rec: rec, slow: true, attr: true}
+	gate := newKaGate()
+	tr := &kaReal{Transport: xmpp.VerifTransport(client), rec: rec, slow: true, attr: true, gate: gate}
 	xmpp.VerifSetTransport(client, tr)
+	late := in.Variant == "lateping" || in.Variant == "latefail"
+	var failedConns []int
 	start := time.Now()
+	if in.Variant == "connecthook" {
+		// the first Connect establishes a session, then PostConnectHook fails and Connect returns its error
+		if err := client.Connect(); err == nil {
+			return setupErr("Connect did not return the hook's error")
+		}
+		ro.Attempts = append(ro.Attempts, 2)
+		failedConns = append(failedConns, 0)
+		srvConn = []int{1}
+		nconn = 2
+	}
 	if err := client.Connect(); err != nil {
 		o := &c18Obs{Attempts: attempt, SetupErr: "connect: " + err.Error(), CloseUs: -1, ReturnUs: -1, ConnectErr: true, Re: ro}
-		return L(L(Z(-2), SBytes("connect"))), o
+		return L(L(L(Z(-2), SBytes("connect"))), L()), o
 	}
 	mu.Lock()
 	ro.Attempts = append(ro.Attempts, 0)
@@ -166,13 +191,13 @@ func runKeepaliveRe(in *c18In, attempt int) (Sx, *c18Obs) {
 		for dl := time.Now().Add(3 * iv); len(rec.snapshot()) == n0 && time.Now().Before(dl); {
 			time.Sleep(iv / 20)
 		}
-		srv.push(0, sItem{T: "serr", Cond: "system-shutdown"}.xml())
+		srv.push(srvConn[0], sItem{T: "serr", Cond: "system-shutdown"}.xml())
 		time.Sleep(5 * time.Millisecond) // the client reads the stream error, its receiver enters Close (1 s)
 	}
-	var failedConns []int
+	releaseLate := func() {}
 	if in.Variant == "serrmgr" {
 		// the session ends by a stream error; the handler above reconnects before it returns
-		srv.push(0, sItem{T: "serr", Cond: "system-shutdown"}.xml())
+		srv.push(srvConn[0], sItem{T: "serr", Cond: "system-shutdown"}.xml())
 		select {
 		case <-resumed:
 		case <-time.After(6 * time.Second):
@@ -187,12 +212,57 @@ func runKeepaliveRe(in *c18In, attempt int) (Sx, *c18Obs) {
 		ends = append(ends, at.Add(iv/2))
 		endsExact = true
 	} else {
-		srv.drop(0)
+		var holdPing, holdClose chan struct{}
+		if late {
+			// the keep-alive loop has polled quit (open) and is stopped right before its ping
+			holdPing = gate.arm(true)
+			select {
+			case <-gate.pingIn:
+			case <-time.After(3*iv + time.Second):
+				ro.GateMissed = true
+			}
+		}
+		srv.drop(srvConn[0])
 		select {
 		case <-discCh:
 		case <-time.After(4 * time.Second):
 		}
 		ends = append(ends, time.Now())
+		if in.Variant == "latefail" {
+			// the first re-dial is refused: the transport holds no connection when the held ping finally runs
+			srv.ln.Close()
+			if err := client.Resume(); err != nil {
+				ro.Attempts = append(ro.Attempts, 1)
+			} else {
+				ro.GateMissed = true
+			}
+			holdClose = gate.arm(false)
+			close(holdPing) // the ping fails ("no connection"); the loop goes on to Close and is stopped at its entry
+			holdPing = nil
+			select {
+			case <-gate.closeIn:
+				ro.LateClose = true
+			case <-time.After(300 * time.Millisecond):
+			}
+			if err := srv.relisten(); err != nil {
+				return setupErr("relisten: " + err.Error())
+			}
+		}
+		defer func() {
+			if holdPing != nil {
+				close(holdPing)
+			}
+		}()
+		releaseLate = func() {
+			if holdPing != nil {
+				close(holdPing) // written on whatever connection the transport holds NOW
+				holdPing = nil
+			}
+			if holdClose != nil {
+				close(holdClose) // the Close that answers the failed late ping acts NOW
+				holdClose = nil
+			}
+		}
 	}
 
 	// the application reconnects on the same object until Resume reports success
@@ -212,6 +282,7 @@ func runKeepaliveRe(in *c18In, attempt int) (Sx, *c18Obs) {
 	}
 	ro.Sessions = len(est)
 	last := len(est) - 1
+	releaseLate() // the new session is up
 	// the last session stays up: long enough for a Close that was entered ConnectTimeout ago to act
 	up := 12 * iv
 	if in.Variant == "staleclose" {
@@ -276,7 +347,7 @@ func runKeepaliveRe(in *c18In, attempt int) (Sx, *c18Obs) {
 		over := ends[len(ends)-1]
 		if k < len(ends) {
 			over = ends[k]
-			if k < len(ends)-1 && !endsExact {
+			if k < len(ends)-1 && !endsExact && !late {
 				over = over.Add(40 * time.Millisecond)
 			}
 		}
@@ -288,14 +359,20 @@ func runKeepaliveRe(in *c18In, attempt int) (Sx, *c18Obs) {
 				if e.code == kaPingOk || e.code == kaPingFail {
 					lp.Late++
 				}
+				if e.code == kaPingOk {
+					lp.LateOk++
+				}
 			} else {
 				before = append(before, e)
+				if e.code == kaPingOk && !lp.Failed {
+					lp.NSucc++
+				}
 			}
 			if e.code == kaPingFail {
 				lp.Failed = true
 			}
-			if e.code == kaPingOk && !lp.Failed {
-				lp.NSucc++
+			if e.code == kaClose && lp.Failed {
+				lp.Closed = true
 			}
 		}
 		seq := append(append(before, kaEv{code: kaReturn}), after...)
@@ -340,7 +417,27 @@ func runKeepaliveRe(in *c18In, attempt int) (Sx, *c18Obs) {
 	if len(ro.Loops) > 0 {
 		o.NSucc = ro.Loops[0].NSucc
 	}
-	return LS(loopsSx), o
+	// per attempt: is a session left up behind it (for a failed attempt: did the client leave its connection open)
+	var left []Sx
+	fi := 0
+	for _, a := range ro.Attempts {
+		switch a {
+		case 0:
+			left = append(left, B(true))
+		case 1:
+			left = append(left, B(false))
+		default:
+			open := false
+			if fi < len(failedConns) {
+				for _, x := range ro.OpenFailed {
+					open = open || x == failedConns[fi]
+				}
+				fi++
+			}
+			left = append(left, B(open))
+		}
+	}
+	return L(LS(loopsSx), LS(left)), o
 }
 
 // reInputSx: the history of attempts, each with the loop it would run (observed pings, how it ended).
@@ -378,11 +475,19 @@ func reInputSx(in *c18In, o *c18Obs) Sx {
 			}
 			k++
 		}
-		term, failAt := 0, 0
+		term, failAt, lateFlag := 0, 0, 0
 		if lp.Failed {
 			term, failAt = 1, lp.NSucc+1
+			if !lp.Closed {
+				lateFlag = 1 // racing with the end of the session: observed
+			}
 		}
-		inp := L(Zi(in.IvUs), Zi(term), Zi(failAt), Zi(lp.NSucc), LS(suf), Z(1), B(true), Zi(lp.SrvN), L(), Zi(end), B(true))
+		if a == 0 && k == 1 && (in.Variant == "lateping" || in.Variant == "latefail") {
+			// the harness held the last ping of loop 1 past its poll until the session was over and re-dialled:
+			// the model is TOLD so, and decides by itself that no Close follows
+			lateFlag = 2
+		}
+		inp := L(Zi(in.IvUs), Zi(term), Zi(failAt), Zi(lp.NSucc), LS(suf), Z(1), B(true), Zi(lp.SrvN), L(), Zi(end), B(true), Zi(lateFlag))
 		atts = append(atts, L(Zi(a), inp))
 	}
 	return L(Z(99), LS(atts))
@@ -404,6 +509,9 @@ func reOracle(in *c18In, obs Sx) (string, string) {
 	// a Close entered for session 1 must not act on the session established meanwhile
 	if ro.LostLast {
 		how := "the connection of the new session was closed by the client itself"
+		if in.Variant == "latefail" {
+			how = "the keep-alive of session 1 was past its poll of quit when the session ended; it ran after a refused re-dial, failed for want of a connection, and the loop answered that with transport.Close(), which acted on the connection of the session established meanwhile"
+		}
 		if in.Variant == "staleclose" {
 			how = "the keep-alive of session 1 failed while its receiver sat in Close; its own Close (entered then, acting ConnectTimeout later) closed the connection of the session established meanwhile"
 		}
@@ -417,7 +525,13 @@ func reOracle(in *c18In, obs Sx) (string, string) {
 	if int64(ro.LastSrvN) > ro.LastUpUs/iv+2 {
 		return fmt.Sprintf("the last session was up for %d us at interval %d us and the server read %d keep-alive bytes", ro.LastUpUs, iv, ro.LastSrvN), "too-many-pings"
 	}
+	if ro.LateClose {
+		return "the session was over (loss reported, re-dial refused) when the held keep-alive finally ran and failed for want of a connection; the loop answered it with transport.Close(), which then acts on whatever connection the client has by then", "close-after-session-end"
+	}
 	for k, lp := range ro.Loops {
+		if k == 0 && (in.Variant == "lateping" || in.Variant == "latefail") && lp.Late <= 1 {
+			continue // the one ping that was already past the poll of quit
+		}
 		if lp.Late > 0 {
 			when := "after its session was over"
 			if in.Variant == "serrmgr" && k == 0 {
@@ -430,7 +544,11 @@ func reOracle(in *c18In, obs Sx) (string, string) {
 		return fmt.Sprintf("the last session was up for %d intervals without a keep-alive", ro.LastUpUs/iv), "too-few-pings"
 	}
 	if len(ro.OpenFailed) > 0 {
-		return fmt.Sprintf("Resume reported failure but left its session open on server connection(s) %v, without keep-alive or receiver", ro.OpenFailed), "failed-attempt-session-left-open"
+		which := "Resume"
+		if in.Variant == "connecthook" {
+			which = "Connect (PostConnectHook failed)"
+		}
+		return fmt.Sprintf("%s reported failure but left the session it had established up on server connection(s) %v: no keep-alive is ever written on it, nobody reads it, nothing closes it", which, ro.OpenFailed), "failed-attempt-session-left-open"
 	}
 	return "", ""
 }
